@@ -33,6 +33,9 @@ def run(ctx):
     prog = ctx.prog
     ctx.uses(*prog.modules)
     ctx.trust('dict and list iteration order = insertion order (language guarantee); C12/C13 for the streams themselves')
+    # first: two simulators in one process must not influence each other's order (reported even when later anchors vanish because of it)
+    from .. import simrules as _S
+    _S.shared_state(ctx, None, 'R7.8')
     r71_sources(ctx)
     ctx.rule('R7.2', 'listeners are kept in lists, appended once, and notified by iterating (a copy of) the list in order')
     c08.r81(ctx)
@@ -52,7 +55,6 @@ def run(ctx):
     # on every path, including the path on which the run notices the stop request (shared rule with C02)
     S.r21_typestate(ctx, S.SimCtx(prog))
     # two simulators in one process must not influence each other's order
-    S.shared_state(ctx, S.SimCtx(prog), 'R7.8')
 
 
 def set_typed_names(prog):
